@@ -403,6 +403,10 @@ fn case_strings(t: &mut Tape, st: &mut Stats) -> Verdict {
             return check_substring(&mut ctx, &s, Some(i.to_string()), Some(j.to_string()), st);
         }
     }
+    if st.want_sample() && multibyte && !needle.is_empty() {
+        let (a1, a2) = (s.clone(), needle.clone());
+        st.sample(|| json!({"operation_group": which, "text": a1, "needle": a2}));
+    }
     Verdict::Pass(if multibyte || !needle.is_empty() { Some(fp(&(which, &s, &needle))) } else { None })
 }
 
